@@ -128,6 +128,7 @@ impl StarkProof {
 
         Layout::validate_public_input(&self.public_input, &stark_domains)?;
 
+        proof { Layout::lemma_composition_pre(&self.public_input, &stark_domains); }
         // Compute the initial hash seed for the Fiat-Shamir transcript.
         let digest = self.public_input.get_hash(self.config.n_verifier_friendly_commitment_layers);
         // Construct the transcript.
